@@ -36,6 +36,7 @@ def check(ctx):
     probabilities(ctx, P)
     loops(ctx, P, iters)
     reinitialised(ctx, P)
+    subset_positions(ctx, P)
     # the `blocked` argument of the release notification is the customer's is_blocked flag: its life cycle is a shared instance (C07)
     from . import c07
     c07.blocked_flag(ctx, P, views, iters)
@@ -406,6 +407,64 @@ def symmetry(ctx, P, iters):
             ctx.unrecognised("TS: no history.append in %s.timestamp" % c)
 
 
+def subset_positions(ctx, P):
+    """NodePopulationSubset reports the populations of the observed nodes in the order the user listed them: entry i of the state belongs to observed_nodes[i].
+    That is so when the vector has one entry per listed node, every update addresses the entry at the node's position in the list, and the hashed state is
+    the vector itself."""
+    ob = ctx.ob("SUBPOS", "NodePopulationSubset: state has one entry per observed node, updates address observed_nodes.index(node), hash_state is the vector unchanged")
+    from ..model import enclosing_def
+    ci = P.classes.get("NodePopulationSubset")
+    if ci is None:
+        ctx.unrecognised("SUBPOS: NodePopulationSubset not found")
+        return
+    view = P.view("NodePopulationSubset")
+    n = 0
+    def bad(where, construct, reason, msg, node):
+        ctx.violation(ob, "R5.state-position", "NodePopulationSubset.%s" % where, construct, reason, msg, loc(node))
+    # (a) shape of the vector
+    cls, fn = view.method("initialise")
+    inits = [x for x in rules.walk(P, view, fn) if isinstance(x, ast.Assign) and any(unparse(t) == "self.state" for t in x.targets)]
+    for x in inits:
+        n += 1
+        v = x.value
+        okk = (isinstance(v, ast.ListComp) and len(v.generators) == 1 and not v.generators[0].ifs and unparse(v.generators[0].iter) == "self.observed_nodes" and unparse(v.elt) == "0") \
+            or unparse(v).replace(" ", "") in ("[0]*len(self.observed_nodes)", "len(self.observed_nodes)*[0]")
+        ob.ok("initialise", unparse(x)[:80])
+        if not okk:
+            bad("initialise", unparse(x)[:80], "vector-shape", "the state must start as one zero per observed node, in the order of observed_nodes", x)
+    if not inits:
+        ctx.unrecognised("SUBPOS: NodePopulationSubset.initialise does not assign self.state")
+    # (b) updates
+    for m in ("change_state_accept", "change_state_release", "change_state_block", "change_state_renege", "change_state_classchange"):
+        r = view.resolve(m)
+        if r is None or r[0].name != "NodePopulationSubset":
+            continue
+        for x in rules.walk(P, view, r[1]):
+            tg = x.target if isinstance(x, ast.AugAssign) else (x.targets[0] if isinstance(x, ast.Assign) else None)
+            if isinstance(tg, ast.Subscript) and unparse(tg.value) == "self.state":
+                n += 1
+                f_ = enclosing_def(x) or r[1]
+                sl = tg.slice
+                if isinstance(sl, ast.Name):        # `k = self.observed_nodes.index(...)` named once, then used as the position
+                    ds = [y for y in ast.walk(f_) if isinstance(y, ast.Assign) and any(isinstance(t, ast.Name) and t.id == sl.id for t in y.targets)]
+                    if len(ds) == 1 and len(ds[0].targets) == 1:
+                        sl = ds[0].value
+                idx = unparse(rules.inline_locals(f_, sl)).replace(" ", "")
+                nodep = [a.arg for a in r[1].args.args][1]
+                ob.ok("%s:%s" % (m, idx))
+                if idx not in ("self.observed_nodes.index(%s.id_number-1)" % nodep,):
+                    bad(m, unparse(x)[:80], "update-position", "the entry updated for a node must be the one at that node's position in observed_nodes (found index `%s`)" % idx, x)
+    # (c) the reported state
+    cls, fn = view.method("hash_state")
+    rets = [x for x in ast.walk(fn) if isinstance(x, ast.Return)]
+    got = unparse(rules.inline_locals(fn, rets[0].value)).replace(" ", "") if len(rets) == 1 and rets[0].value is not None else "?"
+    ob.ok("hash_state", got)
+    n += 1
+    if got != "tuple(self.state)":
+        bad("hash_state", got[:80], "reported-state", "hash_state must report the vector as it is (entry i = observed_nodes[i]); a filter or re-ordering changes which node an entry belongs to", fn)
+    ctx.floor("NodePopulationSubset state sites", n, 4)
+
+
 def probabilities(ctx, P):
     ob = ctx.ob("PROB", "state_probabilities divides every accumulated duration by the sum of all accumulated durations (shares sum to 1 by construction)")
     view = P.view("StateTracker")
@@ -459,6 +518,28 @@ def probabilities(ctx, P):
     if not (okk and div):
         ctx.violation(ob, "R5.probability-normalisation", "StateTracker.state_probabilities", "normalisation of %s" % dname, "not-normalised-by-total",
                       "the probabilities must be each state's accumulated time divided by the total accumulated time, unconditionally (otherwise they need not sum to 1)", loc(fn))
+    # the window: sojourns are measured with increment_time(<right end>, -<left end>); the right end is either the date of a history entry or, for the
+    # closing sojourn of a finite window, the window's end itself -- the last recorded state persists until then
+    cls0, fn0 = view.method("state_probabilities")
+    params = [a.arg for a in fn0.args.args]
+    win = params[1] if len(params) > 1 else "observation_period"
+    firsts = []
+    for x in rules.walk(P, view, fn0):
+        if isinstance(x, ast.Call) and call_name(x) == "increment_time" and len(x.args) == 2:
+            from ..model import enclosing_def
+            firsts.append((unparse(rules.inline_locals(enclosing_def(x) or fn0, x.args[0])).replace(" ", ""), x))
+    loopvars = {unparse(lp.target) for lp in rules.walk(P, view, fn0) if isinstance(lp, ast.For) and "history" in unparse(lp.iter)}
+    entry_dates = {"%s[0]" % v for v in loopvars} | {v.strip("()").split(",")[0] for v in loopvars if "," in v}
+    ob.ok("window-ends", "sojourn right ends: %s" % sorted(set(f for f, _ in firsts)))
+    closing = [f for f, _ in firsts if f == "%s[1]" % win]
+    if firsts and not closing:
+        ctx.violation(ob, "R5.window", "StateTracker.state_probabilities", "; ".join(sorted(set(f for f, _ in firsts))), "closing-sojourn-not-to-window-end",
+                      "for a finite window the last state's sojourn must run to the window's end (%s[1]); it is measured to something else, so that state's share is cut short "
+                      "and every other share is inflated by the renormalisation" % win, loc(fn0))
+    for f, x in firsts:
+        if f != "%s[1]" % win and f not in entry_dates:
+            ctx.violation(ob, "R5.window", "StateTracker.state_probabilities", f, "sojourn-end",
+                          "a sojourn must end at the date of a history entry or at the window's end; found `%s`" % f, loc(x))
     for c in P.subclasses("StateTracker")[1:]:
         if "state_probabilities" in P.classes[c].methods:
             ctx.violation(ob, "R5.probability-normalisation", c, "state_probabilities override", "override", "a tracker overrides the shared probability computation", loc(P.classes[c].node))
